@@ -59,6 +59,7 @@ fn hash_w(w: &W512) -> u64 {
 pub fn cells<const N: u32>(thorough: bool, want_prop: &str) -> Vec<CellDef>
 where
     PxE2<N>: Px,
+    softposit::PxE1<N>: Px,
 {
     let n = N;
     let sh = 32 - n;
@@ -134,6 +135,37 @@ where
         ));
     }
     if want_prop == "C17" {
+        // the to_<type>() forwarders of the generic type
+        for (sfx, sp) in unary_sp::<PxE2<N>>(thorough) {
+            v.push(CellDef::new("C17", format!("PxE2<{n}>/to_fixed_spellings{sfx}"), sp, move |k| {
+                let p = fb(k as u32);
+                let got = guard(|| {
+                    use softposit::{P16E1, P32E2, P8E0};
+                    ((p.to_p8e0().to_bits() != P8E0::from_pxe2(p).to_bits()) as u128)
+                        | ((p.to_p16e1().to_bits() != P16E1::from_pxe2(p).to_bits()) as u128) << 1
+                        | ((p.to_p32e2().to_bits() != P32E2::from_pxe2(p).to_bits()) as u128) << 2
+                        | ((P8E0::from(p).to_bits() != P8E0::from_pxe2(p).to_bits()) as u128) << 3
+                        | ((P16E1::from(p).to_bits() != P16E1::from_pxe2(p).to_bits()) as u128) << 4
+                        | ((P32E2::from(p).to_bits() != P32E2::from_pxe2(p).to_bits()) as u128) << 5
+                });
+                Out::cmp(got, 0, true).ops(6)
+            }));
+        }
+        for (sfx, sp) in unary_sp::<softposit::PxE1<N>>(thorough) {
+            v.push(CellDef::new("C17", format!("PxE1<{n}>/to_fixed_spellings{sfx}"), sp, move |k| {
+                let p = softposit::PxE1::<N>::from_bits((k as u32) << sh);
+                let got = guard(|| {
+                    use softposit::{P16E1, P32E2, P8E0};
+                    ((p.to_p8e0().to_bits() != P8E0::from_pxe1(p).to_bits()) as u128)
+                        | ((p.to_p16e1().to_bits() != P16E1::from_pxe1(p).to_bits()) as u128) << 1
+                        | ((p.to_p32e2().to_bits() != P32E2::from_pxe1(p).to_bits()) as u128) << 2
+                        | ((P8E0::from(p).to_bits() != P8E0::from_pxe1(p).to_bits()) as u128) << 3
+                        | ((P16E1::from(p).to_bits() != P16E1::from_pxe1(p).to_bits()) as u128) << 4
+                        | ((P32E2::from(p).to_bits() != P32E2::from_pxe1(p).to_bits()) as u128) << 5
+                });
+                Out::cmp(got, 0, true).ops(6)
+            }));
+        }
         let al3 = thin(&al, if thorough { 40 } else { 24 });
         v.push(CellDef::new("C17", format!("PxE2<{n}>/quire_spellings"), Space::prod3(al3.clone(), al3.clone(), al3, "thinned alphabet^3: tuple and array spellings against elementary += / -="), move |k| {
             let (a, b, c) = k3(k);
